@@ -9,6 +9,7 @@ import FxVerif.Proofs.C15Ledger
 import FxVerif.Proofs.C15Sdk
 import FxVerif.Proofs.C15Custom
 import FxVerif.Proofs.C15Counts
+import FxVerif.Proofs.C15Lookup
 /-!
 # C15 — governance deposits are conserved and proposals follow their message-type rules
 
@@ -68,12 +69,12 @@ def specMin (custom : List (Ty × Custom)) (dflt : Nat) (msgs : List Msg) : Nat 
 
 /-- **every history**: the gov module account holds exactly the deposits of the proposals that are still in their
 deposit or voting period (and there are no other deposit records) -/
-theorem module_balance_eq_open_deposits (ops : List Op) :
+theorem module_balance_eq_open_deposits (ops : List Op) (hc : NoGovSpend ops = true) :
     let s := run init ops
     s.gov = sumAmt (s.deps.filter (fun d => isOpenId s.props d.pid)) ∧
     s.deps.all (fun d => isOpenId s.props d.pid) = true := by
   intro s
-  have hi : Inv s := run_inv rfl rfl rfl ops init init_inv
+  have hi : Inv s := run_inv rfl rfl rfl ops hc init init_inv
   have hall : s.deps.all (fun d => isOpenId s.props d.pid) = true := by
     rw [List.all_eq_true]; exact hi.recs
   refine ⟨?_, hall⟩
@@ -82,13 +83,13 @@ theorem module_balance_eq_open_deposits (ops : List Op) :
 
 /-- refund: the module pays out exactly the recorded deposits of the proposal, the records are deleted, nothing else of
 the deposit book-keeping changes — in a state that satisfies the invariant it cannot fail -/
-theorem each_deposit_settled_once_refund (ops : List Op) (pid : Nat) :
+theorem each_deposit_settled_once_refund (ops : List Op) (hc : NoGovSpend ops = true) (pid : Nat) :
     let s := run init ops
     ∃ s', refundDeposits pid s = .ok s' ∧ s'.gov + sumAmt (depsOf s.deps pid) = s.gov ∧ s'.deps = depsNot s.deps pid ∧
       depsOf s'.deps pid = [] ∧
       s'.settled = s.settled ++ (depsOf s.deps pid).map (fun d => ⟨d.pid, d.who, d.amt, .refund⟩) := by
   intro s
-  have hi : Inv s := run_inv rfl rfl rfl ops init init_inv
+  have hi : Inv s := run_inv rfl rfl rfl ops hc init init_inv
   obtain ⟨s', h⟩ := refundDeposits_total (pid := pid) hi.bal
   have sp := refundDeposits_spec hi.bal h
   refine ⟨s', h, ?_, sp.2.1, ?_, ?_⟩
@@ -100,12 +101,12 @@ theorem each_deposit_settled_once_refund (ops : List Op) (pid : Nat) :
     · cases h; rfl
 
 /-- burn: the same for `DeleteAndBurnDeposits`; the burnt amount is exactly the sum of the records, no account is credited -/
-theorem each_deposit_settled_once_burn (ops : List Op) (pid : Nat) :
+theorem each_deposit_settled_once_burn (ops : List Op) (hc : NoGovSpend ops = true) (pid : Nat) :
     let s := run init ops
     ∃ s', burnDeposits pid s = .ok s' ∧ s'.gov + sumAmt (depsOf s.deps pid) = s.gov ∧ s'.deps = depsNot s.deps pid ∧
       depsOf s'.deps pid = [] ∧ s'.bal = s.bal ∧ s'.burned = s.burned + sumAmt (depsOf s.deps pid) := by
   intro s
-  have hi : Inv s := run_inv rfl rfl rfl ops init init_inv
+  have hi : Inv s := run_inv rfl rfl rfl ops hc init init_inv
   obtain ⟨s', h⟩ := burnDeposits_total (pid := pid) hi.bal
   have sp := burnDeposits_spec hi.bal h
   refine ⟨s', h, ?_, sp.2.1, ?_, ?_⟩
@@ -133,11 +134,11 @@ theorem refund_credits_each_once : ∀ (ds : List Dep) (g : Nat) (b : List (Addr
 /-- never twice, never both: in every reachable state a deposit record exists only for a proposal that is still open, so
 a proposal that has ended (or was deleted) has no record left that a second refund or burn could pay out — a second
 settlement of the same proposal moves nothing -/
-theorem each_deposit_settled_once (ops : List Op) (pid : Nat) :
+theorem each_deposit_settled_once (ops : List Op) (hc : NoGovSpend ops = true) (pid : Nat) :
     let s := run init ops
     isOpenId s.props pid = false → depsOf s.deps pid = [] ∧ sumAmt (depsOf s.deps pid) = 0 := by
   intro s hclosed
-  have hi : Inv s := run_inv rfl rfl rfl ops init init_inv
+  have hi : Inv s := run_inv rfl rfl rfl ops hc init init_inv
   have : depsOf s.deps pid = [] := by
     simp only [depsOf, List.filter_eq_nil_iff]
     intro d hd hpid
@@ -244,28 +245,25 @@ theorem voting_requires_min_deposit (s : State) (p : Proposal) (who : Addr) (amt
 theorem activation_period_by_type (s : State) (p : Proposal) :
     activationPeriod s p = specPeriod s.params s.custom p.msgs p.expedited := by
   have h1 : activationUsesCustomPeriod = true := rfl
-  have h2 : customPeriodLookupOk = true := rfl
   have h3 : activationDefaultByExpedited = true := rfl
   have h4 : periodLookupType = "first-message-url" := rfl
   have ht : propTypeP p.msgs = typeOf p.msgs := by cases h : p.msgs <;> simp [propTypeP, typeUrlBy, typeOf, h4]
-  simp only [activationPeriod, specPeriod, h1, h2, h3, ht, Bool.and_self, if_true, Bool.true_and]
+  simp only [activationPeriod, customPeriodOf_eq, specPeriod, h1, h3, ht, Bool.and_self, if_true, Bool.true_and]
   cases getCustom s.custom (typeOf p.msgs) <;> cases p.expedited <;> simp
 
 theorem conversion_period_by_type (s : State) (p : Proposal) :
     conversionPeriod s p = specPeriod s.params s.custom p.msgs false := by
   have h1 : conversionUsesCustomPeriod = true := rfl
-  have h2 : customPeriodLookupOk = true := rfl
   have h4 : periodLookupType = "first-message-url" := rfl
   have ht : propTypeP p.msgs = typeOf p.msgs := by cases h : p.msgs <;> simp [propTypeP, typeUrlBy, typeOf, h4]
-  simp only [conversionPeriod, specPeriod, h1, h2, ht, Bool.and_self, if_true]
+  simp only [conversionPeriod, customPeriodOf_eq, specPeriod, h1, ht, Bool.and_self, if_true]
   cases getCustom s.custom (typeOf p.msgs) <;> simp
 
 theorem tally_quorum_by_type (s : State) (p : Proposal) : quorumFor s p = specQuorum s.params s.custom p.msgs := by
   have h1 : tallyQuorumByType = true := rfl
-  have h2 : customQuorumLookupOk = true := rfl
   have h4 : quorumLookupType = "first-message-url" := rfl
   have ht : propTypeQ p.msgs = typeOf p.msgs := by cases h : p.msgs <;> simp [propTypeQ, typeUrlBy, typeOf, h4]
-  simp only [quorumFor, specQuorum, h1, h2, ht, Bool.and_self, if_true]
+  simp only [quorumFor, customQuorumOf_eq, specQuorum, h1, ht, Bool.and_self, if_true]
   rfl
 
 /-- turnout as `Tally` computes it: total voting power / total bonded tokens, a `LegacyDec` quotient -/
@@ -422,11 +420,11 @@ theorem passed_iff_every_message_succeeded (msgs : List Msg) (s : State) :
 
 /-- in every reachable state the module account covers the refund or burn of any proposal's deposits: processing an
 inactive-queue entry of a stored proposal succeeds -/
-theorem gov_endblock_inactive_total (ops : List Op) (pid : Nat) (p : Proposal) :
+theorem gov_endblock_inactive_total (ops : List Op) (hc : NoGovSpend ops = true) (pid : Nat) (p : Proposal) :
     let s := run init ops
     findProp s.props pid = some p → ∃ s', dropInactive pid s = .ok s' := by
   intro s hp
-  have hi : Inv s := run_inv rfl rfl rfl ops init init_inv
+  have hi : Inv s := run_inv rfl rfl rfl ops hc init init_inv
   rw [dropInactive_eq]
   unfold dropInactiveSpec
   simp only [hp, show inactiveSettleShapeOk = true from rfl, if_true]
@@ -436,11 +434,11 @@ theorem gov_endblock_inactive_total (ops : List Op) (pid : Nat) (p : Proposal) :
 
 /-- … and so does the tally of an active-queue entry of a stored proposal, whatever the outcome of the tally is and
 whether or not its messages succeed (handler errors and panics are caught: `execMsg = none`) -/
-theorem gov_endblock_finish_total (ops : List Op) (pid : Nat) (p : Proposal) (passes burn : Bool) (res : Nat × Nat × Nat × Nat) :
+theorem gov_endblock_finish_total (ops : List Op) (hc : NoGovSpend ops = true) (pid : Nat) (p : Proposal) (passes burn : Bool) (res : Nat × Nat × Nat × Nat) :
     let s := run init ops
     findProp s.props pid = some p → ∃ s', finishTally passes burn res p pid s = .ok s' := by
   intro s _
-  have hi : Inv s := run_inv rfl rfl rfl ops init init_inv
+  have hi : Inv s := run_inv rfl rfl rfl ops hc init init_inv
   unfold finishTally
   simp only [refundRun_eq, burnRun_eq]
   simp only [show settleShapeOk = true from rfl, Bool.not_true, Bool.false_and, Bool.false_eq_true, if_false]
@@ -472,27 +470,27 @@ abbrev stakingOk := FxVerif.Proofs.C15.stakingOk
 numbers are: every stored vote passed the `MsgVoteWeighted` validation (invariant), so its weights are at most 1 and no
 option occurs twice, hence abstain ≤ total; and with the decision sequence in the order of the source — zero bonded
 before the turnout, all-abstain (which includes "no votes") before the veto and yes shares — no divisor is zero -/
-theorem tally_never_divides_by_zero (ops : List Op) (stk : Staking) (hs : stakingOk stk) (pid : Nat) :
+theorem tally_never_divides_by_zero (ops : List Op) (hc : NoGovSpend ops = true) (stk : Staking) (hs : stakingOk stk) (pid : Nat) :
     let s := run init ops
     ∃ n, tallyNums (votesOf s.votes pid) stk = some n ∧ n.abstain ≤ n.total ∧ n.bonded = stk.totalBonded ∧
       ∀ p, ∃ r, tally s p n = .ok r := by
   intro s
-  have ha : All s := run_all rfl rfl rfl rfl ops init init_all
+  have ha : All s := run_all rfl rfl rfl rfl ops hc init init_all
   obtain ⟨n, h1, h2, h3⟩ := tallyNums_ok (votes := votesOf s.votes pid) (stk := stk)
     (fun v hv => ha.both.v.valid v (mem_votesOf.mp hv).1) hs rfl
   exact ⟨n, h1, h2, h3, fun p => tally_ok s p h2⟩
 
 /-- … and so does the tally of an active-queue entry of a stored proposal, whatever the votes and the staking numbers are -/
-theorem gov_endblock_active_total (ops : List Op) (pid : Nat) (p : Proposal) (stk : Staking)
+theorem gov_endblock_active_total (ops : List Op) (hc : NoGovSpend ops = true) (pid : Nat) (p : Proposal) (stk : Staking)
     (hs : stakingOk stk) :
     let s := run init ops
     findProp s.props pid = some p → ∃ s', tallyOne stk pid s = .ok s' := by
   intro s hp
-  obtain ⟨n, h1, _, _, h4⟩ := tally_never_divides_by_zero ops stk hs pid
+  obtain ⟨n, h1, _, _, h4⟩ := tally_never_divides_by_zero ops hc stk hs pid
   obtain ⟨⟨passes, burn⟩, hr⟩ := h4 p
   have h1' : tallyNums (votesOf s.votes pid) stk = some n := h1
   have hr' : tally s p n = .ok (passes, burn) := hr
-  have hi : Inv s := run_inv rfl rfl rfl ops init init_inv
+  have hi : Inv s := run_inv rfl rfl rfl ops hc init init_inv
   unfold tallyOne
   simp only [hp, h1', hr']
   -- the state handed to `finishTally` differs only in the votes
@@ -524,11 +522,11 @@ theorem gov_endblock_active_total (ops : List Op) (pid : Nat) (p : Proposal) (st
 
 /-- the end-blocker preserves the deposit invariant (kept from the first round: it is now a corollary of
 `gov_endblock_total`, which no longer assumes anything about the queues) -/
-theorem gov_endblock_total_partial (ops : List Op) (stk : Staking) (s' : State) :
+theorem gov_endblock_total_partial (ops : List Op) (hc : NoGovSpend ops = true) (stk : Staking) (s' : State) :
     let s := run init ops
     endBlock stk s = .ok s' → Inv s' := by
   intro s h
-  exact endBlock_inv rfl rfl rfl (run_inv rfl rfl rfl ops init init_inv) h
+  exact endBlock_inv rfl rfl rfl (run_inv rfl rfl rfl ops hc init init_inv) h
 
 /-! ## queue consistency, proved: the end-blocker is total -/
 
@@ -536,13 +534,13 @@ theorem gov_endblock_total_partial (ops : List Op) (stk : Staking) (s' : State) 
 proposals in their deposit period, the active queue exactly the `(voting end, id)` of those in their voting period, both
 strictly sorted (every entry once) — so every open proposal is due at its end time and will be settled, and no entry
 lacks its proposal -/
-theorem queue_consistency (ops : List Op) :
+theorem queue_consistency (ops : List Op) (hc : NoGovSpend ops = true) :
     let s := run init ops
     (∀ t id, (t, id) ∈ s.inactive ↔ ∃ p, findProp s.props id = some p ∧ p.status = .deposit ∧ p.depositEnd = t) ∧
     (∀ t id, (t, id) ∈ s.active ↔ ∃ p, findProp s.props id = some p ∧ p.status = .voting ∧ p.votingEnd = t) ∧
     s.inactive.Pairwise qlt ∧ s.active.Pairwise qlt ∧ s.inactive.Nodup ∧ s.active.Nodup := by
   intro s
-  have ha : All s := run_all rfl rfl rfl rfl ops init init_all
+  have ha : All s := run_all rfl rfl rfl rfl ops hc init init_all
   have q := ha.both.q
   refine ⟨?_, ?_, q.inactSorted, q.actSorted, nodup_of_sorted q.inactSorted, nodup_of_sorted q.actSorted⟩
   · intro t id
@@ -554,16 +552,16 @@ theorem queue_consistency (ops : List Op) :
 `EndBlocker` returns no error — every refund and burn is covered (deposit invariant), every queue entry has its proposal
 (queue consistency), no tally divides by zero (vote-store invariant and the order of the tests) — and all invariants
 hold again -/
-theorem gov_endblock_total (ops : List Op) (stk : Staking) (hs : stakingOk stk) :
+theorem gov_endblock_total (ops : List Op) (hc : NoGovSpend ops = true) (stk : Staking) (hs : stakingOk stk) :
     ∃ s', endBlock stk (run init ops) = .ok s' ∧ Inv s' ∧ QInv s' ∧ VInv s' := by
-  have ha : All (run init ops) := run_all rfl rfl rfl rfl ops init init_all
+  have ha : All (run init ops) := run_all rfl rfl rfl rfl ops hc init init_all
   obtain ⟨s', h, a'⟩ := endBlock_total rfl rfl rfl rfl rfl ha hs
   exact ⟨s', h, a'.inv, a'.both.q, a'.both.v⟩
 
 /-- no history halts: a step of the model never answers `halt:` -/
-theorem no_halt (ops : List Op) (dt : Nat) (stk : Staking) (hs : stakingOk stk) :
+theorem no_halt (ops : List Op) (hc : NoGovSpend ops = true) (dt : Nat) (stk : Staking) (hs : stakingOk stk) :
     (step (run init ops) (.endBlock dt stk)).2 = "ok" := by
-  obtain ⟨s', h, _⟩ := gov_endblock_total ops stk hs
+  obtain ⟨s', h, _⟩ := gov_endblock_total ops hc stk hs
   simp [step, h]
 
 /-! ## the vote store -/
@@ -571,12 +569,12 @@ theorem no_halt (ops : List Op) (dt : Nat) (stk : Staking) (hs : stakingOk stk) 
 /-- **votes in every reachable state**: every stored vote passed the validation of `MsgVoteWeighted` (weights in (0, 1],
 no option twice, weights adding up to 1), belongs to a stored proposal that is in its voting period, and there is at
 most one per (proposal, voter) -/
-theorem votes_valid_and_current (ops : List Op) :
+theorem votes_valid_and_current (ops : List Op) (hc : NoGovSpend ops = true) :
     let s := run init ops
     (∀ v ∈ s.votes, optsValid v.opts = true ∧ ∃ p, findProp s.props v.pid = some p ∧ p.status = .voting) ∧
     s.votes.Pairwise (fun a b => ¬ (a.pid = b.pid ∧ a.voter = b.voter)) := by
   intro s
-  have ha : All s := run_all rfl rfl rfl rfl ops init init_all
+  have ha : All s := run_all rfl rfl rfl rfl ops hc init init_all
   exact ⟨fun v hv => ⟨ha.both.v.valid v hv, ha.both.v.voting v hv⟩, ha.both.v.uniq⟩
 
 /-- **a tally consumes the votes it counted**: after the tally of a proposal none of its votes is stored, whatever the
@@ -676,11 +674,11 @@ theorem tally_power_bounded_by_stake (v : Val) (hS : 0 < v.shares) (ds : List Na
 
 /-- **every stored proposal, after every history, has messages of one type** (they passed `checkProposalMsgs` at
 submission and the messages of a stored proposal never change) -/
-theorem stored_proposals_single_type (ops : List Op) (pid : Nat) (p : Proposal) :
+theorem stored_proposals_single_type (ops : List Op) (hc : NoGovSpend ops = true) (pid : Nat) (p : Proposal) :
     let s := run init ops
     findProp s.props pid = some p → ∀ a ∈ p.msgs, ∀ b ∈ p.msgs, lowerAscii a.ty = lowerAscii b.ty := by
   intro s hp
-  have ha : All s := run_all rfl rfl rfl rfl ops init init_all
+  have ha : All s := run_all rfl rfl rfl rfl ops hc init init_all
   have hc : checkMsgs p.msgs = true := ha.both.q.typed pid p hp
   cases hm : p.msgs with
   | nil => intro a ha'; cases ha'
@@ -937,7 +935,7 @@ parameters and custom parameters of that moment; when it does, voting starts now
 its message type at that moment, and that end time is its entry in the active queue; its messages and kind never change;
 (2) the same for a proposal that is stored by this very operation (submission with its initial deposit); (3) a proposal
 that has ended is never touched again (in particular it never re-enters voting). -/
-theorem enters_voting_exactly_when_min_reached (ops : List Op) (op : Op) (pid : Nat) :
+theorem enters_voting_exactly_when_min_reached (ops : List Op) (hc : NoGovSpend ops = true) (op : Op) (hop : opNoGovSpend op = true) (pid : Nat) :
     let s := run init ops
     let s' := (step s op).1
     (∀ p, findProp s.props pid = some p → p.status = .deposit → ∀ p', findProp s'.props pid = some p' →
@@ -952,8 +950,8 @@ theorem enters_voting_exactly_when_min_reached (ops : List Op) (op : Op) (pid : 
         (p'.status = .voting ∨ p'.status = .deposit)) ∧
     (∀ p, findProp s.props pid = some p → isOpenSt p.status = false → findProp s'.props pid = some p) := by
   intro s s'
-  have ha : All s := run_all rfl rfl rfl rfl ops init init_all
-  have ha' : All s' := step_all rfl rfl rfl rfl op ha
+  have ha : All s := run_all rfl rfl rfl rfl ops hc init init_all
+  have ha' : All s' := step_all rfl rfl rfl rfl op hop ha
   have inq : ∀ p', findProp s'.props pid = some p' → p'.status = .voting → (p'.votingEnd, pid) ∈ s'.active :=
     fun p' h1 h2 => ha'.both.q.actComplete pid p' h1 h2
   by_cases hE : ∃ dt stk, op = .endBlock dt stk
@@ -1030,7 +1028,7 @@ decision is the specified one with the quorum configured for its message type at
 or FAILED, if not a regular proposal is REJECTED and an expedited one is converted: it stays in voting, is no longer
 expedited, and its new end is its START + the regular period configured for its message type at that moment, which is its
 new entry in the active queue. -/
-theorem voting_ends_exactly_at_period_end (ops : List Op) (op : Op) (pid : Nat) (p : Proposal) :
+theorem voting_ends_exactly_at_period_end (ops : List Op) (hc : NoGovSpend ops = true) (op : Op) (hop : opNoGovSpend op = true) (pid : Nat) (p : Proposal) :
     let s := run init ops
     let s' := (step s op).1
     findProp s.props pid = some p → p.status = .voting →
@@ -1049,8 +1047,8 @@ theorem voting_ends_exactly_at_period_end (ops : List Op) (op : Op) (pid : Nat) 
               q.status = .voting ∧ q.expedited = false ∧
               q.votingEnd = p.votingStart + specPeriod s.params sm.custom p.msgs false ∧ (q.votingEnd, pid) ∈ s'.active)) := by
   intro s s' hp hv
-  have ha : All s := run_all rfl rfl rfl rfl ops init init_all
-  have ha' : All s' := step_all rfl rfl rfl rfl op ha
+  have ha : All s := run_all rfl rfl rfl rfl ops hc init init_all
+  have ha' : All s' := step_all rfl rfl rfl rfl op hop ha
   have inq : ∀ p', findProp s'.props pid = some p' → p'.status = .voting → (p'.votingEnd, pid) ∈ s'.active :=
     fun p' h1 h2 => ha'.both.q.actComplete pid p' h1 h2
   refine ⟨fun hnd hnc => ?_, fun dt stk hop hs hle => ?_⟩
@@ -1119,7 +1117,7 @@ theorem voting_ends_exactly_at_period_end (ops : List Op) (op : Op) (pid : Nat) 
 state) leaves a proposal in its deposit period untouched while the block time is before its deposit end, and from its
 deposit end on deletes it in that very block — and none of its deposit records is left (they were refunded or burnt, see
 `each_deposit_settled_once_refund` / `_burn`, and the module balance is again the sum of the open deposits) -/
-theorem deposit_period_ends_exactly_at_deposit_end (ops : List Op) (dt : Nat) (stk : Staking) (hs : stakingOk stk)
+theorem deposit_period_ends_exactly_at_deposit_end (ops : List Op) (hc : NoGovSpend ops = true) (dt : Nat) (stk : Staking) (hs : stakingOk stk)
     (pid : Nat) (p : Proposal) :
     let s := run init ops
     let s' := (step s (.endBlock dt stk)).1
@@ -1127,7 +1125,7 @@ theorem deposit_period_ends_exactly_at_deposit_end (ops : List Op) (dt : Nat) (s
     (s.time < p.depositEnd → findProp s'.props pid = some p) ∧
     (p.depositEnd ≤ s.time → findProp s'.props pid = none ∧ depsOf s'.deps pid = []) := by
   intro s s' hp hd
-  have ha : All s := run_all rfl rfl rfl rfl ops init init_all
+  have ha : All s := run_all rfl rfl rfl rfl ops hc init init_all
   obtain ⟨s1, hb, _⟩ := endBlock_total rfl rfl rfl rfl rfl ha hs
   have hs' : s' = (step s (.endBlock dt stk)).1 := rfl
   simp only [step, hb] at hs'
@@ -1137,7 +1135,7 @@ theorem deposit_period_ends_exactly_at_deposit_end (ops : List Op) (dt : Nat) (s
   have hnone : findProp s'.props pid = none := by rw [e']; exact dd.2 h
   refine ⟨hnone, ?_⟩
   have hrun : s' = run init (ops ++ [.endBlock dt stk]) := (run_snoc ops init _).symm
-  have := each_deposit_settled_once (ops ++ [.endBlock dt stk]) pid
+  have := each_deposit_settled_once (ops ++ [.endBlock dt stk]) (noGovSpend_snoc hc rfl) pid
   simp only at this
   rw [← hrun] at this
   exact (this (by simp [isOpenId, hnone])).1
@@ -1154,6 +1152,11 @@ holds for it -/
 theorem world_gov_is_reachable (ops : List WOp) : ∃ gops, (wrun winit ops).gov = run init gops :=
   wrun_gov ops winit ⟨[], rfl⟩
 
+/-- … and when no proposal of the history spends from the gov module account, neither does one of that gov history -/
+theorem world_gov_is_reachable_clean (ops : List WOp) (hc : WNoGovSpend ops = true) :
+    ∃ gops, (wrun winit ops).gov = run init gops ∧ NoGovSpend gops = true :=
+  wrun_gov_clean ops hc winit ⟨[], rfl, rfl⟩
+
 /-- **after every history of gov operations, delegations and slashes** every bonded validator has delegator shares … -/
 theorem staking_numbers_always_ok (ops : List WOp) : stakingOk (viewOf (wrun winit ops).stk) := by
   have h := wrun_sok ops winit (fun v hv => by simp [winit] at hv)
@@ -1169,10 +1172,10 @@ theorem delegations_within_shares (ops : List WOp) :
 
 /-- **the end-blocker never halts, with no assumption left about the staking numbers**: after every history of the
 combined machine a block answers `ok` (the numbers written on the op are ignored — the tallies read the modelled state) -/
-theorem no_halt_closed (ops : List WOp) (dt : Nat) (stk : Staking) :
+theorem no_halt_closed (ops : List WOp) (hc : WNoGovSpend ops = true) (dt : Nat) (stk : Staking) :
     (wstep (wrun winit ops) (.gov (.endBlock dt stk))).2 = "ok" := by
-  obtain ⟨gops, hg⟩ := world_gov_is_reachable ops
-  have := no_halt gops dt (viewOf (wrun winit ops).stk) (staking_numbers_always_ok ops)
+  obtain ⟨gops, hg, hcl⟩ := world_gov_is_reachable_clean ops hc
+  have := no_halt gops hcl dt (viewOf (wrun winit ops).stk) (staking_numbers_always_ok ops)
   simp only [wstep, hg]
   exact this
 
@@ -1207,11 +1210,11 @@ held, so exactly what was paid in has been settled: nothing twice, nothing left 
 theorem deposits_paid_equal_held_plus_settled (ops : List Op) (pid : Nat) :
     let s := run init ops
     sumAmt (depsOf s.paid pid) = sumAmt (depsOf s.deps pid) + sumSettled (settledOf s.settled pid) ∧
-    (isOpenId s.props pid = false → sumAmt (depsOf s.paid pid) = sumSettled (settledOf s.settled pid)) := by
+    (NoGovSpend ops = true → isOpenId s.props pid = false → sumAmt (depsOf s.paid pid) = sumSettled (settledOf s.settled pid)) := by
   intro s
   have hl : Ledger s := run_ledger rfl rfl rfl ops init init_ledger
-  refine ⟨hl pid, fun hc => ?_⟩
-  have h0 : sumAmt (depsOf s.deps pid) = 0 := (each_deposit_settled_once ops pid hc).2
+  refine ⟨hl pid, fun hcl hc => ?_⟩
+  have h0 : sumAmt (depsOf s.deps pid) = 0 := (each_deposit_settled_once ops hcl pid hc).2
   have h := hl pid
   rw [h0] at h
   simpa using h
@@ -1300,7 +1303,7 @@ outcome is the specified one with the quorum configured for the message type in 
 converted with the regular period configured for its type in `s`.  (Without the hypothesis the tally sees the parameters as
 rewritten by the proposals executed before it in queue order — `example` below; that is the code's behaviour, and the
 property's "configured for its message type" is then read at that moment.) -/
-theorem tally_uses_block_start_custom (ops : List Op) (dt : Nat) (stk : Staking) (pid : Nat) (p : Proposal) :
+theorem tally_uses_block_start_custom (ops : List Op) (hc : NoGovSpend ops = true) (dt : Nat) (stk : Staking) (pid : Nat) (p : Proposal) :
     let s := run init ops
     let s' := (step s (.endBlock dt stk)).1
     findProp s.props pid = some p → p.status = .voting → stakingOk stk → p.votingEnd ≤ s.time →
@@ -1314,7 +1317,7 @@ theorem tally_uses_block_start_custom (ops : List Op) (dt : Nat) (stk : Staking)
       (specPasses s.params (specQuorum s.params s.custom p.msgs) p.expedited n = false → p.expedited = true →
           q.status = .voting ∧ q.expedited = false ∧ q.votingEnd = p.votingStart + specPeriod s.params s.custom p.msgs false) := by
   intro s s' hp hv hs hle hno
-  have ha : All s := run_all rfl rfl rfl rfl ops init init_all
+  have ha : All s := run_all rfl rfl rfl rfl ops hc init init_all
   obtain ⟨s1, hb, _⟩ := endBlock_total rfl rfl rfl rfl rfl ha hs
   have hs' : s' = (step s (.endBlock dt stk)).1 := rfl
   simp only [step, hb] at hs'
@@ -1362,7 +1365,7 @@ the proposal's `FinalTallyResult`, per option, the whole tokens (`TruncateInt`) 
 moment `sm` of its tally of (power of each delegation of the voter to a bonded validator) × (weight) plus the sum over the
 bonded validators whose operator voted of (power left after the deductions) × (weight) — whatever the outcome is (passed,
 failed, rejected, or an expedited proposal converted to a regular one) -/
-theorem stored_tally_result_is_votes_times_stakes (ops : List Op) (dt : Nat) (stk : Staking) (pid : Nat) (p : Proposal) :
+theorem stored_tally_result_is_votes_times_stakes (ops : List Op) (hc : NoGovSpend ops = true) (dt : Nat) (stk : Staking) (pid : Nat) (p : Proposal) :
     let s := run init ops
     let s' := (step s (.endBlock dt stk)).1
     findProp s.props pid = some p → p.status = .voting → stakingOk stk → p.votingEnd ≤ s.time →
@@ -1374,7 +1377,7 @@ theorem stored_tally_result_is_votes_times_stakes (ops : List Op) (dt : Nat) (st
          (voteCount .no stk (votesOf sm.votes pid) + valCount .no (votesOf sm.votes pid) stk.dels stk.vals) / DEC,
          (voteCount .veto stk (votesOf sm.votes pid) + valCount .veto (votesOf sm.votes pid) stk.dels stk.vals) / DEC) := by
   intro s s' hp hv hs hle
-  have ha : All s := run_all rfl rfl rfl rfl ops init init_all
+  have ha : All s := run_all rfl rfl rfl rfl ops hc init init_all
   obtain ⟨s1, hb, _⟩ := endBlock_total rfl rfl rfl rfl rfl ha hs
   have hs' : s' = (step s (.endBlock dt stk)).1 := rfl
   simp only [step, hb] at hs'
@@ -1430,6 +1433,7 @@ theorem gov_account_cannot_deposit :
       | cas k o n => simp [isGovFunded, ha] at hgf
       | credit a b c => simp [isGovFunded, ha] at hgf
       | setCustom u c => simp [isGovFunded, ha] at hgf
+      | govSpend a t => simp [isGovFunded, ha] at hgf
   have := execMsgs_none_of_fails msgs s ⟨m, hm, hf⟩
   simp [runProposalMsgs, show execInCacheCtx = true from rfl, show execErrVisible = true from rfl, this]
 
@@ -1632,5 +1636,193 @@ example : (run init (govCarrierOps.take 8)).props.map (fun p => (p.id, p.status,
     (govCarrierOps.map (fun o => (step (run init (govCarrierOps.take 8)) o).2)).drop 8 = ["ok", "ok"] ∧
     (run init govCarrierOps).gov = 0 ∧ (run init govCarrierOps).props.map (·.id) = [1] := by
   refine ⟨by decide, by decide, by decide, by decide, by decide, by decide⟩
+
+/-! ## round 5: messages of passed proposals that spend from the gov module account (`Act.govSpend`)
+
+Fix 45d0bc2 closed ONE way in which a proposal message can make the gov module account's balance differ from the escrowed
+deposits (the account as its own depositor).  The general class is wider: every message whose only signer is the gov account
+and whose handler moves coins out of it — bank `MsgSend` / `MsgMultiSend`, `MsgFundCommunityPool`, `MsgDelegate` … — is a
+legal proposal message, and the account holds nothing BUT the escrow.  The model's message alphabet now contains the abstract
+`govSpend amt to`; `execMsg` lets it succeed whenever the balance covers it, as the bank does.  The conservation and
+totality theorems above (`module_balance_eq_open_deposits`, `each_deposit_settled_once*`, `gov_endblock_*`, `no_halt`, `queue_consistency`,
+…) therefore carry the hypothesis `NoGovSpend ops` — no proposal of the history carries such a message — explicitly; on the
+message alphabet of rounds 1–4 it is vacuous, so no statement got weaker.  Below: the hypothesis is exactly what is needed. -/
+
+theorem refundLoop_short : ∀ (ds : List Dep) (g : Nat) (b : List (Addr × Nat)), g < sumAmt ds → ∃ e, refundLoop ds g b = .error e := by
+  intro ds
+  induction ds with
+  | nil => intro g b h; simp [sumAmt] at h
+  | cons d r ih =>
+    intro g b h
+    simp only [refundLoop]
+    split
+    · exact ⟨_, rfl⟩
+    · rename_i hge
+      simp only [sumAmt] at h
+      exact ih _ _ (by omega)
+
+/-- **a spend from the gov module account is a spend of escrowed deposits** — every history without one (`NoGovSpend`), every
+positive amount within the balance, every recipient: the message succeeds (the bank cannot tell escrow from funds), the
+account is left short of the recorded deposits by exactly `amt` (so `module_balance_eq_open_deposits` is false from here on),
+and every proposal whose own deposits exceed what is left can be neither refunded nor burnt: `RefundAndDeleteDeposits` /
+`DeleteAndBurnDeposits` return an error, which the end-blocker turns into a halt. -/
+theorem gov_spend_breaks_escrow (ops : List Op) (hc : NoGovSpend ops = true) (m : Msg) (amt : Nat) (to : Addr)
+    (hm : m.act = .govSpend amt to) (hok : m.ok = true) (h0 : 0 < amt) (hle : amt ≤ (run init ops).gov) :
+    let s := run init ops
+    ∃ s', execMsg m s = some s' ∧ s'.deps = s.deps ∧ s'.props = s.props ∧ s'.gov + amt = sumAmt s'.deps ∧
+      s'.gov ≠ sumAmt (s'.deps.filter (fun d => isOpenId s'.props d.pid)) ∧
+      ∀ pid, s'.gov < sumAmt (depsOf s'.deps pid) →
+        (∃ e, refundDeposits pid s' = .error e) ∧ (∃ e, burnDeposits pid s' = .error e) := by
+  intro s
+  have hi : Inv s := run_inv rfl rfl rfl ops hc init init_inv
+  have hall : s.deps.filter (fun d => isOpenId s.props d.pid) = s.deps :=
+    List.filter_eq_self.mpr (fun d hd => hi.recs d hd)
+  have hnlt : ¬ s.gov < amt := by have : amt ≤ s.gov := hle; omega
+  refine ⟨{ s with gov := s.gov - amt, bal := credit s.bal to amt, spent := s.spent + amt }, ?_, rfl, rfl, ?_, ?_, ?_⟩
+  · simp only [execMsg, hok, hm, Bool.not_true, Bool.false_eq_true, if_false, hnlt]
+  · have := hi.bal; have : amt ≤ s.gov := hle; simp only; omega
+  · simp only [hall]; have := hi.bal; have : amt ≤ s.gov := hle; omega
+  · intro pid hlt
+    simp only at hlt
+    constructor
+    · obtain ⟨e, he⟩ := refundLoop_short (depsOf s.deps pid) (s.gov - amt) (credit s.bal to amt) hlt
+      exact ⟨e, by simp only [refundDeposits, he]⟩
+    · exact ⟨.halt "burn: insufficient module balance", by simp only [burnDeposits, hlt, if_true]⟩
+
+/-- a legal history WITH such a message: proposal 1 (bank `MsgSend` of 300 from the gov account to account 7) is passed by all
+validators while proposal 2 (deposit 500) is in its deposit period -/
+def govSpendOps : List Op :=
+  [ .mint 0 5000,
+    .submit 0 [⟨"/cosmos.bank.v1beta1.MsgSend".toList, true, true, .govSpend 300 7, []⟩] 1000 false,
+    .vote 1 100 [(.yes, DEC)], .vote 1 101 [(.yes, DEC)], .vote 1 102 [(.yes, DEC)],
+    .endBlock 100 demoStk,
+    .submit 0 [toggle] 500 false,
+    .endBlock 10 demoStk,       -- time 100: proposal 1 passes — its own 1000 are refunded, then its message runs on the 500 of proposal 2
+    .endBlock 100 demoStk,      -- time 110: nothing is due
+    .endBlock 1 demoStk ]       -- time 210: the deposit period of proposal 2 has ended
+
+/-- what the model answers to each operation of a history -/
+def answers (s : State) : List Op → List String
+  | [] => []
+  | o :: r => (step s o).2 :: answers (step s o).1 r
+
+/-- **`NoGovSpend` cannot be dropped** (witness; the reproduction on the real app is C07's this round): on `govSpendOps` — every
+operation answers `ok`, the proposal PASSES — the gov account holds 200 against one record of 500 (the 300 are with account 7),
+`module_balance_eq_open_deposits` is false, and the block that ends proposal 2's deposit period cannot refund it: the
+end-blocker returns an error, the model answers `halt:` (`no_halt` is false) -/
+theorem without_NoGovSpend_escrow_is_spent_and_a_later_refund_halts :
+    NoGovSpend govSpendOps = false ∧ stakingOk demoStk ∧
+    answers init (govSpendOps.take 9) = List.replicate 9 "ok" ∧
+    (let s := run init (govSpendOps.take 8)
+     s.props.map (fun p => (p.id, p.status, p.total)) = [(1, .passed, 1000), (2, .deposit, 500)] ∧
+     s.gov = 200 ∧ s.deps = [⟨2, 0, 500⟩] ∧ s.spent = 300 ∧ getBal s.bal 7 = 300 ∧
+     s.gov ≠ sumAmt (s.deps.filter (fun d => isOpenId s.props d.pid))) ∧
+    (step (run init (govSpendOps.take 8)) (.endBlock 100 demoStk)).2 = "ok" ∧
+    (step (run init (govSpendOps.take 9)) (.endBlock 1 demoStk)).2 = "halt:refund: insufficient module balance" := by
+  refine ⟨by decide, ?_, by decide, ?_, by decide, by decide⟩
+  · intro v hv; simp [demoStk] at hv; rcases hv with rfl | rfl | rfl <;> decide
+  · refine ⟨by decide, by decide, by decide, by decide, by decide, by decide⟩
+
+/-- non-vacuity of `gov_spend_breaks_escrow`: the state before the block that passes proposal 1 is reached by a history without a
+spend (proposal 1 replaced by a plain one), the module holds 1500, and 300 is within it -/
+example : NoGovSpend (demoOps.take 4) = true ∧ 0 < 300 ∧ 300 ≤ (run init (demoOps.take 4)).gov := by decide
+
+/-- the hypothesis of the history theorems is met by the demonstration histories of rounds 1–4 -/
+example : NoGovSpend demoOps = true ∧ NoGovSpend govCarrierOps = true ∧ NoGovSpend sameBlockOps = true ∧ NoGovSpend govDepOps = true ∧
+    WNoGovSpend demoWOps = true := by decide
+
+
+/-! ## round 5: the custom-parameter look-ups interpreted -/
+
+/-- **`GetCustomMsgVotingPeriod` and `GetCustomMsgQuorum` as written now** (`x/gov/keeper/proposal.go`; their top-level statements
+are regenerated on every run as (kind, argument) pairs and the model INTERPRETS them — `lookupRun`, used by the activation step,
+the expedited→regular conversion and the tally): the type url of the first message, the entry found under it ⇒ its voting
+period / quorum, else the default argument — and for every table of custom parameters, every message list and every default
+the interpreted run IS the one-piece look-up under the proposal's message type that `period_and_quorum_by_type` speaks about.
+A swapped condition, a different returned field or a look-up under another url changes what the driver computes AND breaks this. -/
+theorem custom_lookup_statements :
+    customPeriodSteps = [("msgType", "first-message-url"), ("ifFound", "customParams.VotingPeriod"), ("return", "defaultVotingPeriod")] ∧
+    customQuorumSteps = [("msgType", "first-message-url"), ("ifFound", "customParams.Quorum"), ("return", "defaultQuorum")] ∧
+    (∀ (custom : List (Ty × Custom)) (msgs : List Msg) (dflt : Nat),
+      customPeriodOf custom msgs dflt = match getCustom custom (typeOf msgs) with | some c => c.votingPeriod | none => dflt) ∧
+    (∀ (custom : List (Ty × Custom)) (msgs : List Msg) (dflt : Nat),
+      customQuorumOf custom msgs dflt = match getCustom custom (typeOf msgs) with | some c => c.quorum | none => dflt) := by
+  have tp : ∀ msgs : List Msg, propTypeP msgs = typeOf msgs := fun msgs => by
+    cases h : msgs <;> simp [propTypeP, typeUrlBy, typeOf, show periodLookupType = "first-message-url" from rfl]
+  have tq : ∀ msgs : List Msg, propTypeQ msgs = typeOf msgs := fun msgs => by
+    cases h : msgs <;> simp [propTypeQ, typeUrlBy, typeOf, show quorumLookupType = "first-message-url" from rfl]
+  refine ⟨rfl, rfl, fun custom msgs dflt => ?_, fun custom msgs dflt => ?_⟩
+  · rw [customPeriodOf_eq, tp]; cases getCustom custom (typeOf msgs) <;> rfl
+  · rw [customQuorumOf_eq, tq]; cases getCustom custom (typeOf msgs) <;> rfl
+
+/-- non-vacuity: an entry for the type is found / none is; and the interpreter follows OTHER statement lists too (the condition
+negated with the returns swapped is the same function; returning the default in both branches ignores the entry) -/
+example : customPeriodOf [(toggleUrl, ⟨0, 20, 900000000000000000⟩)] [toggle] 100 = 20 ∧ customPeriodOf [] [toggle] 100 = 100 ∧
+    customQuorumOf [(toggleUrl, ⟨0, 20, 900000000000000000⟩)] [toggle] 5 = 900000000000000000 ∧
+    lookupRun [("msgType", "first-message-url"), ("ifNotFound", "defaultVotingPeriod"), ("return", "customParams.VotingPeriod")]
+      [] [toggle] 100 = 100 ∧
+    lookupRun [("msgType", "first-message-url"), ("ifFound", "defaultVotingPeriod"), ("return", "defaultVotingPeriod")]
+      [(toggleUrl, ⟨0, 20, 900000000000000000⟩)] [toggle] 100 = 100 := by decide
+
+/-! ## round 5: the validation of the weighted vote options, regenerated from the SDK and interpreted -/
+
+/-- **`msgServer.VoteWeighted` of the SDK version `/repo/go.mod` selects, as written there now**: its top-level statements, the
+body of its loop over the options and the statements of `WeightedVoteOption.IsValid` (regenerated from the module cache) are
+the expected ones — no options ⇒ refused; per option: invalid (weight not in (0, 1]) ⇒ refused, weight added to the total,
+option already used ⇒ refused, option marked used; total above 1 ⇒ refused, total below 1 ⇒ refused; all of that BEFORE
+`AddVote` — the model's `vote` runs them tag by tag (`voteWeightedAccepts`), and for EVERY list of weighted options that run
+accepts exactly the lists the one-piece `optsValid` accepts, which is what `votes_valid_and_current` and
+`tally_never_divides_by_zero` are proved about (a dropped duplicate check or bound in a later SDK version changes what the
+driver accepts and breaks this obligation) -/
+theorem sdk_vote_weighted_statements :
+    sdkVoteWeightedSteps = ["voterAddr", "rejectBadAddr", "rejectEmpty", "total0", "used0", "optionLoop", "rejectTotalGT1",
+      "rejectTotalLT1", "sdkCtx", "addVote", "return"] ∧
+    sdkVoteWeightedLoop = ["rejectInvalidOption", "parseWeight", "total+=weight", "rejectDuplicate", "markUsed"] ∧
+    sdkWeightedOptionValid = ["parseWeight", "falseUnlessPositiveAndAtMostOne", "return ValidVoteOption"] ∧
+    (∀ opts : List (Opt × Nat), voteWeightedAccepts opts = optsValid opts) ∧
+    (∀ (s : State) (pid : Nat) (voter : Addr) (opts : List (Opt × Nat)), vote s pid voter opts = voteSpec s pid voter opts) :=
+  ⟨rfl, rfl, rfl, voteWeightedAccepts_eq, vote_eq⟩
+
+/-- non-vacuity: a split vote is accepted; an option twice, weights adding up to 0.9 or 1.1, a zero weight and no option are refused -/
+example : voteWeightedAccepts [(.no, 700000000000000000), (.abstain, 300000000000000000)] = true ∧
+    voteWeightedAccepts [(.yes, 600000000000000000), (.yes, 400000000000000000)] = false ∧
+    voteWeightedAccepts [(.yes, 600000000000000000), (.no, 300000000000000000)] = false ∧
+    voteWeightedAccepts [(.yes, 600000000000000000), (.no, 500000000000000000)] = false ∧
+    voteWeightedAccepts [(.yes, DEC), (.no, 0)] = false ∧ voteWeightedAccepts [] = false := by decide
+
+/-! ## round 5: the coin loop of `ChargeDeposit`, read statement by statement -/
+
+theorem mulTrunc_le (a r : Nat) (h : r ≤ DEC) : mulTrunc a r ≤ a := by
+  unfold mulTrunc
+  have h1 : a * r ≤ a * DEC := Nat.mul_le_mul_left a h
+  have h2 : a * DEC / DEC = a := Nat.mul_div_cancel a (by decide)
+  calc a * r / DEC ≤ a * DEC / DEC := Nat.div_le_div_right h1
+    _ = a := h2
+
+/-- **the loop over the coins of a deposit in the SDK's `ChargeDeposit`, as written now**: `burnAmount := trunc(amount · rate)`,
+`remainingAmount += amount − burnAmount`, `cancellationCharges += burnAmount` — and for every cancellation rate ≤ 1 (the only
+rates `Params.valid`, i.e. `v1.Params.ValidateBasic`, accepts), every amount and every value of the two accumulators the
+statement-by-statement run gives exactly what the model's closed form under the flag `chargeCoinOk` adds: the depositor keeps
+`amount − trunc(amount · rate)`, the charge is the rest, together the whole deposit -/
+theorem charge_coin_loop_statements :
+    sdkChargeCoin = ["burnAmount=trunc(amount*rate)", "remaining+=amount-burnAmount", "charges+=burnAmount"] ∧
+    (∀ p : Params, p.valid = true → p.cancelRatio ≤ DEC) ∧
+    (∀ rate amt keep chg : Nat, rate ≤ DEC →
+      chargeCoinRun rate amt keep chg = (keep + (amt - mulTrunc amt rate), chg + (amt - (amt - mulTrunc amt rate))) ∧
+      (amt - mulTrunc amt rate) + (amt - (amt - mulTrunc amt rate)) = amt) := by
+  refine ⟨rfl, ?_, ?_⟩
+  · intro p hp
+    simp only [Params.valid, Bool.and_eq_true, decide_eq_true_eq] at hp
+    omega
+  · intro rate amt keep chg hr
+    have hle := mulTrunc_le amt rate hr
+    have e : chargeCoinRun rate amt keep chg = (keep + (amt - mulTrunc amt rate), chg + mulTrunc amt rate) := rfl
+    rw [e]
+    constructor
+    · congr 2; omega
+    · omega
+
+/-- non-vacuity: the default parameters are valid; half of 1001 is kept rounded up (501), the charge is 500 -/
+example : ({} : Params).valid = true ∧ chargeCoinRun 500000000000000000 1001 0 0 = (501, 500) := by decide
 
 end FxVerif.Props.C15
